@@ -35,6 +35,7 @@ tier = opt("--tier", "quick")
 baseline = opt("--baseline", flag=True)
 allchecks = opt("--all-checks", flag=True)
 runs = opt("--runs")
+expect_silent = opt("--expect-silent", flag=True)  # benign refactorings: every check must stay silent (exit 0)
 names = args or sorted(os.listdir(d))
 results = []
 for name in names:
@@ -75,6 +76,10 @@ for name in names:
         subprocess.run(["git", "-C", "/repo", "worktree", "remove", "--force", scratch], capture_output=True)
         shutil.rmtree(scratch, ignore_errors=True)
 own = [r for r in results]
+if expect_silent:
+    noisy = [r for r in own if r[2] != "MISSED"]
+    print(f"NO-ALARM-ON-BENIGN {len(own) - len(noisy)}/{len(own)} silent")
+    sys.exit(0 if not noisy else 1)
 missed = [r for r in own if r[2] != "CAUGHT"]
 print(f"SENSITIVITY {len(own) - len(missed)}/{len(own)} caught")
 sys.exit(0 if not missed else 1)
